@@ -72,6 +72,9 @@ def _split_into_lolos(a_string):
 def _normalize_string(a_string, numeric_endings=False):
     # Lower case
     a_string = a_string.lower()
+    # bytes are normalised like the text they spell, one character per byte
+    if isinstance(a_string, bytes):
+        a_string = a_string.decode('latin-1')
     # Remove trailing decimals (TODO: How awful!)
     if numeric_endings:
         a_string = re.sub(r"(\s*[0-9]+)\.[0-9]+(\s*)", r"\1\2", a_string)
